@@ -13,9 +13,12 @@
 #else
 #define VERIF_LW_GATE() 1
 #endif
-/* the only KSI_calloc in list.c allocates the element array */
-#define KSI_calloc(n, s) ({ size_t verif_n = (n); struct listEl_st *verif_p = VERIF_LW_GATE() ? malloc(verif_n * sizeof(struct listEl_st)) : NULL; \
-	if (verif_p != NULL) memset(verif_p, 0, verif_n * sizeof(struct listEl_st)); (void)(s); (void *)verif_p; })
+/* list.c allocates its element array with KSI_calloc(n, sizeof(struct listEl_st)): typed; the other use
+ * (indexOf's size_t result cell) stays a plain zeroed allocation */
+#define KSI_calloc(n, s) ((s) == sizeof(struct listEl_st) \
+	? ({ size_t verif_n = (n); struct listEl_st *verif_p = VERIF_LW_GATE() ? malloc(verif_n * sizeof(struct listEl_st)) : NULL; \
+	     if (verif_p != NULL) memset(verif_p, 0, verif_n * sizeof(struct listEl_st)); (void *)verif_p; }) \
+	: (VERIF_LW_GATE() ? calloc((n), (s)) : NULL))
 #include "list.c"
 #undef KSI_calloc
 #ifdef REPLAY
